@@ -8,7 +8,7 @@ import numpy as np
 ID = "C08"
 PROPS_FILE = "theories/Props/C08.v"
 EXTRACT = ("theories/Extract/XC08.v", "c08",
-           ["entry_fill", "entry_fill_bl", "entry_fill_eq", "entry_gen_eq", "entry_check", "entry_spec"])
+           ["entry_fill", "entry_fill_bl", "entry_fill_eq", "entry_gen_eq", "entry_check", "entry_spec", "entry_label_ok"])
 PYX = {"_cpmorphology2.pyx": ["fill_labeled_holes_loop"]}
 RULE = ("corpus of hand-drawn scenes (bullseyes, shared holes, multi-parent clusters, split labels) first; every "
         "image of a small shape over a small label alphabet (quick: all 3x3 over {0,1,2} and all 2x3 over {0,1,2,3}; "
@@ -22,11 +22,13 @@ RULE = ("corpus of hand-drawn scenes (bullseyes, shared holes, multi-parent clus
         "background) separately and together; each call repeated in the same process; checkerboards (quick 120x120 > 7000 regions; thorough 200x200 = 20000 regions through the model and 380x380 > 64K regions against binary_fill_holes only); "
         "non-trivial = at least one region is repainted; distinct by hash of the case")
 TRUSTED = [
-    "modelled, not verified: scipy.ndimage.label (the model takes blabels/count as an argument; theorems assume "
-    "only 'a numbering of the 4-connected background components'; the model's own flood fill label4 is compared "
-    "with scipy's numbering on every case below 3000 pixels)",
-    "modelled, not verified: NumPy np.unique / np.lexsort / np.bincount / fancy indexing as transcribed "
-    "(merge sort + adjacent de-duplication, bincount as a fold, Indexes.fwd_idx as an exclusive prefix sum)",
+    "scipy.ndimage.label: the model takes blabels/count as an argument; C08_fill_labeled_holes_correct_img assumes "
+    "Spec.valid_labelling (background pixels and only they are numbered 1..count; 4-adjacent background pixels share a "
+    "number); the verified boolean test labelling_ok_b of exactly that hypothesis is evaluated on scipy's output and on "
+    "the model's own flood fill label4 for every case, and label4's numbering is compared with scipy's",
+    "NumPy np.unique / np.lexsort / np.bincount / fancy indexing as transcribed (merge sort + adjacent de-duplication, "
+    "bincount as a fold, Indexes.fwd_idx as an exclusive prefix sum): the transcription is compared array by array; "
+    "what the transcribed arrays mean (symmetric duplicate-free adjacency, ragged index = neighbour lists) is proved",
     "the spy that wraps fill_labeled_holes_loop inside the staged cpmorphology module to observe i, j, idx, "
     "i_count, is_not_hole, adjacent_non_hole",
 ]
@@ -384,9 +386,11 @@ def model(ctx, cases, outs):
                 gwhere.append((k, n))
     res = _par(ctx, "entry_fill_eq", args)
     gres = _par(ctx, "entry_gen_eq", gargs)
+    # the labelling hypothesis of C08_fill_labeled_holes_correct_img, tested on scipy's blabels and on the model's own
+    lres = _par(ctx, "entry_label_ok", [a[:3] for a in args])
     mouts = [[] for _ in cases]
-    for (k, n), m in zip(where, res):
-        mouts[k].append(m)
+    for (k, n), m, lo in zip(where, res, lres):
+        mouts[k].append(m if lo == [1, 1] else ["labelling", lo])
     for (k, n), m in zip(gwhere, gres):
         if _plain(cases[k]):
             if m != 1:
@@ -411,6 +415,8 @@ def compare(case, out, m):
             which = "with scipy's blabels" if (n < len(m) and isinstance(m[n], list) and m[n][:1] == [0]) \
                 else "(general model fill_gen: mask=%s size=%s)" % ("yes" if case.get("mask") is not None else "None", case.get("size")) \
                 if (n < len(m) and isinstance(m[n], list) and m[n][:1] == ["gen"]) \
+                else "(valid_labelling fails for [scipy's blabels, the model's label4] = %s)" % (m[n][1:],) \
+                if (n < len(m) and isinstance(m[n], list) and m[n][:1] == ["labelling"]) \
                 else "with the model's own flood-fill labelling"
             return "image %s: model (out, blabels, count, called, i, j, idx, i_count, is_not_hole, adjacent_non_hole, " \
                    "lcount) differs from the implementation %s: model says %s" % (
@@ -546,7 +552,11 @@ def shrink_candidates(case):
 MANIFEST = {
     "level_text": (
         "Machine-checked proofs (Coq 8.16) about an executable Gallina model of fill_labeled_holes and "
-        "fill_labeled_holes_loop, for every region-adjacency graph and every stack order: when the first walk stops, "
+        "fill_labeled_holes_loop. Image level: for every rectangular non-negative label image and every numbering of "
+        "the 4-connected background components, the model terminates within its fuel and every output pixel is "
+        "unchanged if its region is in the least set closed under the three rules and otherwise carries an unchanged "
+        "object adjacent to its cluster (edge extraction, lexsort/dedupe/symmetrise, bincount/fwd_idx proved to yield "
+        "the region adjacency graph). Graph level, for every region-adjacency graph and every stack order: when the first walk stops, "
         "is_not_hole marks exactly the least set closed under the three 'unchanged' rules; unchanged neighbours of "
         "changed regions are objects and a changed region touches at most one of them; the second walk labels every "
         "changed region with an unchanged object adjacent to its cluster (the unique one when there is only one); each "
